@@ -7,6 +7,7 @@ import os
 import harness as H
 
 SCRIPT = r'''
+import warnings
 import importlib, csv, tempfile, os, copy, random
 def pts_for(cls, mod, rng, n):
     name = cls.__name__
@@ -156,6 +157,19 @@ def check(entry, seed):
                 out['order_perm'] = perm
             except Exception as ex:
                 out['order_preserved'] = 'raised ' + type(ex).__name__
+        # special positions: the origin / left end of the domain (0.0) and a duplicated point - positions must come back unchanged, the
+        # caller's array must not be touched, one record per point (values there may legitimately be nan)
+        if layout == 'flat':
+            try:
+                sp_ = np.array([0.0] + [float(v) for v in arr[:3]] + [float(arr[1])], dtype=float)
+                keep = sp_.copy()
+                with warnings.catch_warnings():
+                    warnings.simplefilter('ignore')
+                    solS = s(sp_, t)
+                out['special_points_contract'] = bool(np.array_equal(sp_, keep)) and len(solS) == len(keep) and same(solS[names[0]], keep)
+                out['special_points'] = [float(v) for v in keep]
+            except Exception as ex:
+                out['special_points_contract'] = 'raised ' + type(ex).__name__
         # ---- CSV round trip
         fd, path = tempfile.mkstemp(suffix='.csv'); os.close(fd)
         try:
